@@ -149,25 +149,43 @@ example : ∃ base this other : Tree, ExecNorm other ∧ (∀ i, this i = base i
 /-- refinement: on the triples read off three entries of one file (an element
 that `iter_changes(other vs base)` reports: `o ≠ b`), the literal loop body is
 the per-entry function the laws are proved about -/
-theorem mergeChange_ofEntries (b o t : Option Entry) (h : o ≠ b) :
-    mergeChange (Change.ofEntries b o t false) = mergeEntry b t o := by
+theorem mergeChange_ofEntries (b o t : Option Entry) (h : o ≠ b) (tc : Option Entry := none) :
+    mergeChange (Change.ofEntries b o t false tc) = mergeEntry b t o := by
   unfold mergeChange mergeEntry
   simp only [normCopy_ofEntries_false, namesStepC_ofEntries, contentsStepC_ofEntries, execStepC_ofEntries, h,
     if_false]
 
 /-- a COPY reported by `iter_changes` (git trees: OTHER's entry `oe` at the new
 path, paired with a source file whose entries in BASE and THIS are `sb`, `st`)
-is merged as a plain add: the merged file is OTHER's entry — its own parent,
-name, kind, content and executable bit — whatever the source's attributes are,
-and no conflict is reported -/
-theorem mergeChange_copied (sb st : Option Entry) (oe : Entry) (hn : EntryNorm (some oe)) :
-    mergeChange (Change.ofEntries sb (some oe) st true) = ⟨some oe, []⟩ := by
-  have h0 : mergeChange (Change.ofEntries sb (some oe) st true)
-      = mergeChange (Change.ofEntries none (some oe) none false) := by
+is merged as an ADD of `oe` against whatever THIS has, versioned, at the copy's
+own path (`tc`): the attributes of the copy source play no part -/
+theorem mergeChange_copied_general (sb st tc : Option Entry) (oe : Entry) :
+    mergeChange (Change.ofEntries sb (some oe) st true tc) = mergeEntry none tc (some oe) := by
+  have h0 : mergeChange (Change.ofEntries sb (some oe) st true tc)
+      = mergeChange (Change.ofEntries none (some oe) tc false) := by
     unfold mergeChange
     simp only [normCopy_ofEntries_copied, normCopy_ofEntries_false]
-  rw [h0, mergeChange_ofEntries none (some oe) none (by simp)]
+  rw [h0, mergeChange_ofEntries none (some oe) tc (by simp)]
+
+/-- THIS has nothing at the copy's path: the merged file is OTHER's entry — its own parent, name,
+kind, content and executable bit — and no conflict is reported -/
+theorem mergeChange_copied (sb st : Option Entry) (oe : Entry) (hn : EntryNorm (some oe)) :
+    mergeChange (Change.ofEntries sb (some oe) st true none) = ⟨some oe, []⟩ := by
+  rw [mergeChange_copied_general]
   exact mergeEntry_this_eq_base none (some oe) hn
+
+/-- THIS already has the very same file at the copy's path (both sides made the copy): unchanged, no conflict -/
+theorem mergeChange_copied_same (sb st : Option Entry) (oe : Entry) (hn : EntryNorm (some oe)) :
+    mergeChange (Change.ofEntries sb (some oe) st true (some oe)) = ⟨some oe, []⟩ := by
+  rw [mergeChange_copied_general]
+  exact mergeEntry_same none (some oe) hn
+
+/-- THIS has a DIFFERENT file at the copy's path: it is not silently overwritten — a text merge /
+contents conflict is reported (the defect repaired by 2bc6965+a2e75d3) -/
+theorem mergeChange_copied_clash_witness :
+    (mergeChange (Change.ofEntries (some ⟨some 0, 1, .file, 1, false⟩) (some ⟨some 0, 2, .file, 1, false⟩)
+        (some ⟨some 0, 1, .file, 1, false⟩) true (some ⟨some 0, 2, .file, 7, false⟩))).conflicts = [.textMerge] := by
+  decide
 
 /-- the `changed` flag of an element (git: any mode or blob change; bzr: text or
 kind change) only matters when OTHER's kind+content differs from BASE's: so
@@ -179,7 +197,7 @@ theorem mergeChange_changed_irrelevant (c : Change) (hc : c.copied = false) (h :
     if_true, contentsOnP]
 
 example : (⟨true, ⟨some (.file, 1), some (.file, 1), some (.file, 2)⟩, ⟨some (some 0), some (some 0), some (some 0)⟩,
-    ⟨some 1, some 1, some 1⟩, ⟨some false, some true, some false⟩, false⟩ : Change).pairs3.other = some (.file, 1) := rfl
+    ⟨some 1, some 1, some 1⟩, ⟨some false, some true, some false⟩, false, none⟩ : Change).pairs3.other = some (.file, 1) := rfl
 
 /-- the copy normalisation matters: without it a copy whose source THIS has
 modified would be merged against the source (here: a text merge of the copy
@@ -361,7 +379,7 @@ theorem exec_norm_needed_witness :
 `iter_changes(other vs base)` (dulwich `tree_changes` + `RenameDetector`)
 guarantees about it — the harness checks these conditions on the real
 enumeration of every git case:
- * only changed things are reported, a copy has a target;
+ * only changed things are reported, a copy has a target, which is a path BASE does not have;
  * a reported target path exists in OTHER and differs from BASE there; a source path exists in BASE;
  * the source path of a rename / deletion is vacated in OTHER (or is itself a target);
  * every path where OTHER differs from BASE is a target or a vacated source. -/
@@ -369,6 +387,7 @@ enumeration of every git case:
 structure IsDiff (base other : Tree) (cs : List PChange) : Prop where
   changed : ∀ c ∈ cs, c.copied = false → look other c.dst ≠ look base c.src
   copyTarget : ∀ c ∈ cs, c.copied = true → ∃ oe, look other c.dst = some oe
+  copyFresh : ∀ c ∈ cs, c.copied = true → look base c.dst = none
   target : ∀ c ∈ cs, ∀ i, c.dst = some i → other i ≠ none ∧ other i ≠ base i
   source : ∀ c ∈ cs, ∀ i, c.src = some i → base i ≠ none
   vacated : ∀ c ∈ cs, c.copied = false → ∀ i, c.src = some i → other i = none ∨ ∃ c' ∈ cs, c'.dst = some i
@@ -417,7 +436,7 @@ theorem applyChanges_of_results (key : Option Id → Nat → Id) (base this othe
     (hr : ∀ c ∈ cs, (c.result base this other).entry = look other c.dst) (i : Id) :
     applyChanges key base this other cs i =
       if ∃ c ∈ cs, c.dst = some i then other i
-      else if ∃ c ∈ cs, c.removes = some i then none else this i := by
+      else if ∃ c ∈ cs, c.removes this = some i then none else this i := by
   obtain ⟨hp1, hp2⟩ := placements_of_results key base this other cs hk hr
   unfold applyChanges
   cases hf : (placements key base this other cs).find? (fun pe => pe.1 == i) with
@@ -440,16 +459,29 @@ theorem applyChanges_of_results (key : Option Id → Nat → Id) (base this othe
         have := hf (i, e) this
         simp at this
     simp only [hnot, if_false]
-    by_cases hrm : ∃ c ∈ cs, c.removes = some i
-    · have : cs.any (fun c => c.removes == some i) = true := by
+    by_cases hrm : ∃ c ∈ cs, c.removes this = some i
+    · have hany : cs.any (fun c => c.removes this == some i) = true := by
         obtain ⟨c, hc, h⟩ := hrm
         simp only [List.any_eq_true]; exact ⟨c, hc, by simp [h]⟩
-      simp [this, hrm]
-    · have : cs.any (fun c => c.removes == some i) = false := by
+      simp [hany, hrm]
+    · have hany : cs.any (fun c => c.removes this == some i) = false := by
         simp only [List.any_eq_false]
         intro c hc h
         exact hrm ⟨c, hc, by simpa using h⟩
-      simp [this, hrm]
+      simp [hany, hrm]
+
+/-- what a non-copy element leaves behind: THIS's path; a copy leaves at most its own target path -/
+theorem removes_cases (this : Tree) (c : PChange) (i : Id) (h : c.removes this = some i) :
+    (c.copied = false ∧ c.cur = some i) ∨ (c.copied = true ∧ c.dst = some i) := by
+  unfold PChange.removes at h
+  cases hcp : c.copied with
+  | false => left; simpa [hcp] using h
+  | true =>
+    right
+    simp only [hcp, if_true] at h
+    split at h
+    · exact ⟨rfl, h⟩
+    · simp at h
 
 /-- git, THIS = BASE (every file is found at its BASE path): the merged tree is
 OTHER and no element reports a conflict — for renames, copies (exact or
@@ -464,10 +496,10 @@ theorem git_merge_this_eq_base (key : Option Id → Nat → Id) (base other : Tr
     cases hcp : c.copied with
     | true =>
       obtain ⟨oe, hoe⟩ := hd.copyTarget c hc hcp
-      rw [hoe]
+      rw [hoe, hd.copyFresh c hc hcp]
       exact mergeChange_copied _ _ oe (hoe ▸ look_norm other hn c.dst)
     | false =>
-      rw [hcur c hc hcp, mergeChange_ofEntries _ _ _ (hd.changed c hc hcp)]
+      rw [hcur c hc hcp, mergeChange_ofEntries _ _ _ (hd.changed c hc hcp) _]
       exact mergeEntry_this_eq_base _ _ (look_norm other hn c.dst)
   refine ⟨?_, fun c hc => by rw [hres c hc]⟩
   funext i
@@ -475,20 +507,15 @@ theorem git_merge_this_eq_base (key : Option Id → Nat → Id) (base other : Tr
   by_cases h1 : ∃ c ∈ cs, c.dst = some i
   · simp [h1]
   · simp only [h1, if_false]
-    by_cases h2 : ∃ c ∈ cs, c.removes = some i
+    by_cases h2 : ∃ c ∈ cs, c.removes base = some i
     · simp only [h2, if_true]
       obtain ⟨c, hc, hrm⟩ := h2
-      have hcp : c.copied = false := by
-        cases h : c.copied with
-        | false => rfl
-        | true => simp [PChange.removes, h] at hrm
-      have hsrc : c.src = some i := by
-        have := hcur c hc hcp
-        simp only [PChange.removes, hcp] at hrm
-        rw [← this]; simpa using hrm
-      rcases hd.vacated c hc hcp i hsrc with h | h
-      · exact h.symm
-      · exact absurd h h1
+      rcases removes_cases base c i hrm with ⟨hcp, hcu⟩ | ⟨_, hdst⟩
+      · have hsrc : c.src = some i := by rw [← hcur c hc hcp]; exact hcu
+        rcases hd.vacated c hc hcp i hsrc with h | h
+        · exact h.symm
+        · exact absurd h h1
+      · exact absurd ⟨c, hc, hdst⟩ h1
     · simp only [h2, if_false]
       by_cases hob : other i = base i
       · exact hob.symm
@@ -497,7 +524,8 @@ theorem git_merge_this_eq_base (key : Option Id → Nat → Id) (base other : Tr
         · exact absurd ⟨c, hc, by simp [PChange.removes, hcp, hcur c hc hcp, hsrc]⟩ h2
 
 /-- git, THIS = OTHER (every file OTHER renamed is found at its new path in
-THIS): the merge leaves the tree as it is and reports no conflict -/
+THIS, every copy OTHER made is already there): the merge leaves the tree as it
+is and reports no conflict -/
 theorem git_merge_identical (key : Option Id → Nat → Id) (base other : Tree) (cs : List PChange)
     (hk : PathKeyed key other) (hn : ExecNorm other) (hd : IsDiff base other cs)
     (hcur : ∀ c ∈ cs, c.copied = false → c.cur = c.dst) :
@@ -509,9 +537,9 @@ theorem git_merge_identical (key : Option Id → Nat → Id) (base other : Tree)
     | true =>
       obtain ⟨oe, hoe⟩ := hd.copyTarget c hc hcp
       rw [hoe]
-      exact mergeChange_copied _ _ oe (hoe ▸ look_norm other hn c.dst)
+      exact mergeChange_copied_same _ _ oe (hoe ▸ look_norm other hn c.dst)
     | false =>
-      rw [hcur c hc hcp, mergeChange_ofEntries _ _ _ (hd.changed c hc hcp)]
+      rw [hcur c hc hcp, mergeChange_ofEntries _ _ _ (hd.changed c hc hcp) _]
       exact mergeEntry_same _ _ (look_norm other hn c.dst)
   refine ⟨?_, fun c hc => by rw [hres c hc]⟩
   funext i
@@ -519,14 +547,11 @@ theorem git_merge_identical (key : Option Id → Nat → Id) (base other : Tree)
   by_cases h1 : ∃ c ∈ cs, c.dst = some i
   · simp [h1]
   · simp only [h1, if_false]
-    by_cases h2 : ∃ c ∈ cs, c.removes = some i
+    by_cases h2 : ∃ c ∈ cs, c.removes other = some i
     · obtain ⟨c, hc, hrm⟩ := h2
-      have hcp : c.copied = false := by
-        cases h : c.copied with
-        | false => rfl
-        | true => simp [PChange.removes, h] at hrm
-      simp only [PChange.removes, hcp] at hrm
-      exact absurd ⟨c, hc, by rw [← hcur c hc hcp]; simpa using hrm⟩ h1
+      rcases removes_cases other c i hrm with ⟨hcp, hcu⟩ | ⟨_, hdst⟩
+      · exact absurd ⟨c, hc, by rw [← hcur c hc hcp]; exact hcu⟩ h1
+      · exact absurd ⟨c, hc, hdst⟩ h1
     · simp [h2]
 
 /-- git, disjoint changes (per path one side equals BASE, and THIS still has the
@@ -538,16 +563,23 @@ theorem git_merge_disjoint (key : Option Id → Nat → Id) (base this other : T
     (hcur : ∀ c ∈ cs, c.copied = false → c.cur = c.src ∧ look this c.src = look base c.src) :
     applyChanges key base this other cs = union base this other ∧
       ∀ c ∈ cs, (c.result base this other).conflicts = [] := by
+  have hthis : ∀ c ∈ cs, look this c.dst = look base c.dst := by
+    intro c hc
+    cases hdst : c.dst with
+    | none => rfl
+    | some q =>
+      simp only [look]
+      exact (hdis q).resolve_right (hd.target c hc q hdst).2
   have hres : ∀ c ∈ cs, c.result base this other = ⟨look other c.dst, []⟩ := by
     intro c hc
     unfold PChange.result
     cases hcp : c.copied with
     | true =>
       obtain ⟨oe, hoe⟩ := hd.copyTarget c hc hcp
-      rw [hoe]
+      rw [hoe, hthis c hc, hd.copyFresh c hc hcp]
       exact mergeChange_copied _ _ oe (hoe ▸ look_norm other hn c.dst)
     | false =>
-      rw [(hcur c hc hcp).1, (hcur c hc hcp).2, mergeChange_ofEntries _ _ _ (hd.changed c hc hcp)]
+      rw [(hcur c hc hcp).1, (hcur c hc hcp).2, mergeChange_ofEntries _ _ _ (hd.changed c hc hcp) _]
       exact mergeEntry_this_eq_base _ _ (look_norm other hn c.dst)
   refine ⟨?_, fun c hc => by rw [hres c hc]⟩
   funext i
@@ -555,24 +587,20 @@ theorem git_merge_disjoint (key : Option Id → Nat → Id) (base this other : T
   unfold union
   by_cases h1 : ∃ c ∈ cs, c.dst = some i
   · obtain ⟨c, hc, hcd⟩ := h1
-    have := (hd.target c hc i hcd).2
-    simp [this, show ∃ c ∈ cs, c.dst = some i from ⟨c, hc, hcd⟩]
+    have hne := (hd.target c hc i hcd).2
+    simp [hne, show ∃ c ∈ cs, c.dst = some i from ⟨c, hc, hcd⟩]
   · simp only [h1, if_false]
-    by_cases h2 : ∃ c ∈ cs, c.removes = some i
+    by_cases h2 : ∃ c ∈ cs, c.removes this = some i
     · simp only [h2, if_true]
       obtain ⟨c, hc, hrm⟩ := h2
-      have hcp : c.copied = false := by
-        cases h : c.copied with
-        | false => rfl
-        | true => simp [PChange.removes, h] at hrm
-      have hsrc : c.src = some i := by
-        simp only [PChange.removes, hcp] at hrm
-        rw [← (hcur c hc hcp).1]; simpa using hrm
-      have hb := hd.source c hc i hsrc
-      rcases hd.vacated c hc hcp i hsrc with h | h
-      · have hne : other i ≠ base i := fun e => hb (e ▸ h)
-        rw [if_neg hne, h]
-      · exact absurd h h1
+      rcases removes_cases this c i hrm with ⟨hcp, hcu⟩ | ⟨_, hdst⟩
+      · have hsrc : c.src = some i := by rw [← (hcur c hc hcp).1]; exact hcu
+        have hb := hd.source c hc i hsrc
+        rcases hd.vacated c hc hcp i hsrc with h | h
+        · have hne : other i ≠ base i := fun e => hb (e ▸ h)
+          rw [if_neg hne, h]
+        · exact absurd h h1
+      · exact absurd ⟨c, hc, hdst⟩ h1
     · simp only [h2, if_false]
       by_cases hob : other i = base i
       · simp [hob]
@@ -597,13 +625,14 @@ example :
     PathKeyed key other ∧ ExecNorm other ∧ IsDiff base other cs ∧
       (∀ c ∈ cs, c.copied = false → c.cur = c.src) ∧ applyChanges key base base other cs 2 = other 2 := by
   intro key base other cs
-  refine ⟨?_, ?_, ⟨?_, ?_, ?_, ?_, ?_, ?_⟩, ?_, by decide⟩
+  refine ⟨?_, ?_, ⟨?_, ?_, ?_, ?_, ?_, ?_, ?_⟩, ?_, by decide⟩
   · intro i e h
     by_cases h1 : i = 1 <;> by_cases h2 : i = 2 <;> simp_all [other, key] <;> (subst h; simp)
   · intro i e h hk
     by_cases h1 : i = 1 <;> by_cases h2 : i = 2 <;> simp_all [other] <;> (subst h; simp_all)
   · intro c hc hcp; simp [cs] at hc; rcases hc with rfl | rfl <;> simp_all [look, base, other]
   · intro c hc hcp; simp [cs] at hc; rcases hc with rfl | rfl <;> simp_all [look, other]
+  · intro c hc hcp; simp [cs] at hc; rcases hc with rfl | rfl <;> simp_all [look, base]
   · intro c hc i hi; simp [cs] at hc; rcases hc with rfl | rfl <;> simp at hi <;> subst hi <;> simp [base, other]
   · intro c hc i hi; simp [cs] at hc; rcases hc with rfl | rfl <;> simp at hi <;> subst hi <;> simp [base]
   · intro c hc hcp i hi; simp [cs] at hc; rcases hc with rfl | rfl
